@@ -253,6 +253,7 @@ mutual
     | .cell _ => true
     | .date _ => true
     | .tdelta _ => true
+    | .cdelta _ => true
     | .nat => true
     | .list xs => EVal.keysOkList xs
     | .tuple xs => EVal.keysOkList xs
